@@ -28,7 +28,8 @@ CHECKS = {
         "arguments and arguments of other opaque types, over std, harness and freshly generated definitions) and 600 / 20000 loaded module "
         "HUGRs are resolved against empty, single-extension, subset, complete and definition-pruned registries. Every position must be "
         "replaced exactly when the registry defines it; the serialized form (descriptions masked), the exported model, signatures, port "
-        "kinds/types and bounds must not change (also when the loaded runtime requirements were perturbed); resolving twice must equal resolving once.",
+        "kinds/types and bounds must not change (also when the loaded runtime requirements were perturbed); resolving twice must equal resolving once. "
+        "Planted ops include definitions whose signature is computed (no declared polymorphic signature), and the comparison counts how often it was non-vacuous.",
         "Trusted: the view/expectation functions in vf/props/c11.py; registries are built from pruned copies of the real definitions.",
         "DESIGN.md §3 C11",
     ),
@@ -45,8 +46,8 @@ CHECKS = {
     ),
     "C13": (
         "fault injection: exactly one catalogued inconsistency is injected into a well-formed generated builder program at a chosen site and depth; oracle = the documented exception class at the faulty call (or at context exit / serialization)",
-        "3000 (quick) / 100000 (thorough) injected programs over 23 inconsistency kinds (foreign wires in plain and block builders, static ports "
-        "used as values, integer wire indices, non-function callees, disagreeing (also through add_if/add_else) / out-of-range (too large and negative) / repeated / unbuilt cases, mismatched exit "
+        "3000 (quick) / 100000 (thorough) injected programs over 25 inconsistency kinds (foreign wires in plain and block builders, static ports "
+        "used as values (also of another block, and order ports), integer wire indices, non-function callees (also LoadFunction / Call nodes), case rows differing only in type arguments, disagreeing (also through add_if/add_else) / out-of-range (too large and negative) / repeated / unbuilt cases, mismatched exit "
         "branches (branch_exit and branch(src, exit)), declared-output mismatches, polymorphic calls without or with wrong instantiation, incomplete ops and containers at "
         "serialization, untracked / out-of-range tracked indices), each kind >= 50 times at depths 0, 1 and >= 2. A run that completes and "
         "serializes, or raises another class, is a violation.",
@@ -125,7 +126,8 @@ CHECKS = {
         "Every emitted HUGR document (programs, programs+histories with holes, order-link-heavy cases, planted attribute-rich ops), package "
         "document and generated extension document is validated against the published strict JSON schema (sampled 1/4 for HUGRs in quick), "
         "checked for root/parent/edge index sanity, and its edge multiset is compared with the one computed independently from links() and "
-        "the emitted ops' signatures (value port k at k, static input after the value inputs incl. arity-changing row-polymorphic calls, order edge on the next port).",
+        "the emitted ops' signatures (value port k at k, static input after the value inputs incl. arity-changing row-polymorphic calls, order edge on the next port). "
+        "Histories include inserts with the default parent; the repository-test corpus is a further stratum.",
         "Trusted: the published schema file, vf/oracles/wire.py port tables. One index-reuse mechanism is an open known finding. "
         "Not covered: what serde would reject although schema-valid (e.g. u8 overflow of UnitSum.size).",
         "DESIGN.md §3 C03",
@@ -167,7 +169,7 @@ CHECKS = {
         "For 16000 (quick) / 600000 (thorough) generated op instances of 23 kinds (all rows incl. empty, linear, nested; row-polymorphic "
         "signatures with arity-changing instantiations) the outer/inner signature rows, every port kind and type (value, static and order "
         "ports), num_out, nth_inputs/nth_outputs and Hugr.port_type are compared with a table computed from the descriptors alone. Two cross-cutting strata: "
-        "every port of every node of generated builder programs (kind from the op vs type of the linked peer), and one partial-op instance "
+        "every port of every node of generated builder programs (kind from the op vs type of the linked peer; Hugr.port_type on every out port), DFG / container delta and outer == inner rows, and one partial-op instance "
         "(MakeTuple / UnpackTuple / Noop / CallIndirect) re-used through the builders with several rows (facts must follow the current typing).",
         "Trusted: the spec table in vf/props/c06.py and vf/gen/types.py wire forms. runtime_reqs not compared; out-of-range offsets not queried.",
         "DESIGN.md §3 C06",
@@ -177,7 +179,7 @@ CHECKS = {
         "All ints and positive-step slices in a box around [-n, n] for n = 0..6 (quick) / 0..9 (thorough) are applied to real handles and "
         "compared with Python range(n) semantics under the two stated licences; thousands of builder scenarios (every add/insert/call/load "
         "API and every container builder, incl. row-polymorphic calls) check that the returned handle enumerates exactly the outputs the "
-        "generator's parameters dictate, including handles created on recycled node indices.",
+        "generator's parameters dictate, including handles created on recycled node indices, op objects used a second time, and the add_if / add_else route.",
         "Trusted: the expected output counts written in the scenario table. Negative indexing on unknown-count handles not asserted.",
         "DESIGN.md §3 C16",
     ),
@@ -187,7 +189,7 @@ CHECKS = {
         "constants, function values; nesting to depth 3/5) are built with the real constructors; the serialized form must inhabit the "
         "reported type under a JSON-level re-implementation of the Rust rules, the reported type must equal the descriptor's, helper tags "
         "must be the documented ones, collections must embed each element completely, and Const/LoadConst from DfBase.load must agree (also for "
-        "every load in generated builder programs); helper constructors are also handed one-shot iterables.",
+        "every load in generated builder programs); helper constructors are also handed one-shot iterables; values decoded from their own serialization are judged again.",
         "Trusted: vf/oracles/wire.py (inhabits, canonical types), vf/gen/values.py type_of. A negative self-test of the oracle runs first.",
         "DESIGN.md §3 C14",
     ),
@@ -196,7 +198,7 @@ CHECKS = {
         "Every generated shot and multi-shot result (interleaved indexed/whole writes, bools, non-bits, look-alike tags, "
         "all strict-flag combinations, nested lists for collation) is run through the real QsysShot/QsysResult and the outcome "
         "(value or ValueError) is compared with a 40-line replay model of the documented convention; one result object is also asked "
-        "several times with changing options and must answer like a fresh one.",
+        "several times with changing options and must answer like a fresh one; shot / result objects are re-used after further appends; tags may be non-ASCII.",
         "Trusted: the replay model. Not covered: tags ending in newline, floats 0.0/1.0, key order of result dicts, to_pytket.",
         "DESIGN.md §3 C19",
     ),
@@ -206,7 +208,7 @@ CHECKS = {
         "TypeDefs incl. arbitrary from-params index lists, std containers) are built with the real constructors; reported bound, "
         "every bound field in the serialized form, Array/List bounds and StaticArray acceptance are compared with a bound "
         "computed from the descriptor alone; one extension-type object whose arguments are replaced between two uses must report and "
-        "write the bound of its current arguments.",
+        "write the bound of its current arguments, also after a resolution against an empty registry.",
         "Trusted: ref_bound/wire_ty in vf/gen/types.py. Only TypeTypeArg at from-params positions; depth <= 3/5.",
         "DESIGN.md §3 C07",
     ),
@@ -215,7 +217,7 @@ CHECKS = {
         "Every query of the real BiMap is compared with a dict model after every step of each history: "
         "exhaustively for all histories up to length 3 (quick) / 4 (thorough) over a 3x3 domain of falsy keys, "
         "and on tens of thousands of random histories over a 5x5 domain; an icontract invariant (bck == inverse(fwd)) "
-        "runs after every public call. Held = no divergence on any observed execution.",
+        "runs after every public call; operands are fresh objects (equal, not identical) incl. big ints, tuples and strings. Held = no divergence on any observed execution.",
         "Trusted: the 20-line dict model; keys never None and never ==-equal across types; histories beyond the bounds are not explored.",
         "DESIGN.md §3 C18",
     ),
